@@ -101,14 +101,17 @@ def diskSet (s : MState) (name : Bytes) (m : Meta) : MState × Bool :=
 def diskDelete (s : MState) (name : Bytes) (exp : Int) : MState :=
   { s with disk := AList.erase s.disk (Codec.encodeKey name exp) }
 
-/-- `metadata.persist`: drop the entry written under an earlier deadline, write under the current
-    one, remember where. Returns the updated record and whether the write succeeded. -/
+/-- `metadata.persist`: write under the current deadline, then drop the entry written under an
+    earlier deadline (in this order a crash in between leaves two entries, never none; a failed write
+    leaves the previous entry in place), remember where. Returns the updated record and whether the
+    write succeeded. -/
 def persist (s : MState) (name : Bytes) (m : Meta) : MState × Meta × Bool :=
-  let (s, m) := match m.stored with
-    | some e => if e ≠ m.exp then (diskDelete s name e, { m with stored := none }) else (s, m)
-    | none => (s, m)
   let (s, ok) := diskSet s name m
-  (s, if ok then { m with stored := some m.exp } else m, ok)
+  if !ok then (s, m, false) else
+  let s := match m.stored with
+    | some e => if e ≠ m.exp then diskDelete s name e else s
+    | none => s
+  (s, { m with stored := some m.exp }, true)
 
 /-- `metadata.unpersist` -/
 def unpersist (s : MState) (name : Bytes) (m : Meta) : MState :=
